@@ -23,6 +23,18 @@ for d in sorted(glob.glob(V + '/seeded/*')):
     summ = summ.replace('|', '\\|')
     v = sorted({short(x) for x in m['check_verdict']['violations']})
     lines.append("| %s | %s | %s | %s | %s |" % (pid, ', '.join(os.path.basename(f) for f in m['files_changed']), summ, first, '<br>'.join(v[:3]) or '-'))
+unc = sorted(glob.glob(V + '/seeded_uncaught/*'))
+for d in unc:
+    m = json.load(open(d + '/meta.json'))
+    summ = re.sub(r'\s+', ' ', m['summary']); summ = (summ if len(summ) < 260 else summ[:257] + '...').replace('|', '\\|')
+    why = re.sub(r'\s+', ' ', open(d + '/WHY_NOT_CAUGHT.txt').read()).strip().replace('|', '\\|')
+    lines.append("| %s | %s | %s | **NOT CAUGHT** | - (%s) |" % (os.path.basename(d), ', '.join(os.path.basename(f) for f in m['files_changed']), summ, why[:400]))
+rej = sorted(glob.glob(V + '/seeded_rejected/*'))
+lines.append("")
+if unc:
+    lines.append("%d confirmed seeded change(s) are NOT caught and kept under `/verif/seeded_uncaught/` with the reason (not part of the must-fail corpus)." % len(unc))
+if rej:
+    lines.append("%d proposed change(s) were judged not to violate the property in any reachable state and are kept under `/verif/seeded_rejected/` with the reason: %s." % (len(rej), ', '.join(os.path.basename(d) for d in rej)))
 lines.append("")
 lines.append("%d seeded changes, %d caught by the check as it stood, %d missed at first (each miss was answered by strengthening the contracts, never by touching the change); all %d are caught now (`tools/selftest.sh`)." % (n, n - miss, miss, n))
 kf = json.load(open(V + '/known_findings.json'))
